@@ -268,6 +268,11 @@ type richFlat struct {
 	List   []richNested      `cbor:"7,keyasint,omitempty" json:"list,omitempty"`
 	Map    map[string]uint16 `cbor:"8,keyasint,omitempty" json:"map,omitempty"`
 	Count  uint32            `cbor:"-9,keyasint" json:"count"`
+	// present in one encoding only (the other tag is "-"), and excluded from both
+	CborOnly *string `cbor:"10,keyasint,omitempty" json:"-"`
+	JSONOnly *string `cbor:"-" json:"json-only,omitempty"`
+	Neither  string  `cbor:"-" json:"-"`
+	Last     *int64  `cbor:"11,keyasint,omitempty" json:"last,omitempty"`
 }
 
 type richNested struct {
@@ -288,6 +293,11 @@ func c15Rich(c *mon.Ctx, g *model.Gen) {
 	}
 	if g.R.Intn(2) == 0 {
 		v.NestP = &richNested{X: 7, Y: "p"}
+	}
+	if g.R.Intn(3) != 0 {
+		v.CborOnly, v.JSONOnly, v.Neither = model.SP(g.NonEmptyText()), model.SP(g.NonEmptyText()), "bookkeeping"
+		l := int64(g.R.Intn(100))
+		v.Last = &l
 	}
 	if g.R.Intn(2) == 0 {
 		v.List = []richNested{{X: 1}, {X: 2, Y: g.Text()}}
